@@ -591,7 +591,7 @@ class Program:
         if isinstance(r, ExtRef):
             if r.dotted.startswith("ast."):
                 nm = r.dotted[4:]
-                if hasattr(ast, nm):
+                if hasattr(ast, nm) and isinstance(getattr(ast, nm), type):
                     return getattr(ast, nm)
             return r
         if isinstance(r, tuple) and r[0] == "assign":
